@@ -60,6 +60,15 @@ def run(ctx: Ctx, rep: Report) -> None:
     from . import circuit_extra
     circuit_extra.readapi_spec(ctx, rep)
     circuit_extra.front_rear_spec(ctx, rep)
+    from .permdir import permdir
+    permdir(ctx, rep)
+    # paired read views and the two directions of the grid walk
+    from ..rules.mirror import rule_mirror
+    c = 'bqskit/ir/circuit.py:Circuit.'
+    rule_mirror(ctx, rep, c + 'front', c + 'rear')
+    rule_mirror(ctx, rep, c + 'first_on', c + 'last_on')
+    it = 'bqskit/ir/iterator.py:CircuitGridIterator.'
+    rule_mirror(ctx, rep, it + 'increment_iter', it + 'decrement_iter')
 
 
 # ---------------------------------------------------------------------------
